@@ -155,6 +155,14 @@ func init() {
 			}
 			return nil
 		},
+		"zzvSolverSeconds": func(in *Interp, a []Value) Value {
+			// per-query cap for the one-shot (cvc5 / z3) runs of this harness: float kernels need minutes
+			n := int(cInt(in, a[0], "seconds"))
+			if n > in.p.cfg.EscalateSec {
+				in.p.cfg.EscalateSec = n
+			}
+			return nil
+		},
 		"zzvBound": func(in *Interp, a []Value) Value {
 			in.p.run.mu.Lock()
 			in.p.run.Bounds[str(a[0])] = str(a[1])
